@@ -21,9 +21,11 @@ def _expand(atom, m):
 
 def _canon(atoms, concls):
     """Canonical form up to variable renaming and atom order: minimum over orderings of atoms of equal relation."""
+    # the premise is a set of atoms: an atom listed twice matches the same tuple twice and constrains nothing further
     groups = {}
     for rel, args in atoms:
-        groups.setdefault(rel, []).append(tuple(args))
+        if tuple(args) not in groups.setdefault(rel, []):
+            groups[rel].append(tuple(args))
     rels = sorted(groups)
     best = None
     perms = [list(itertools.permutations(groups[r])) for r in rels]
@@ -42,7 +44,7 @@ def _canon(atoms, concls):
         for r, alist in zip(rels, choice):
             for args in alist:
                 seq.append((r, tuple(nm(a) for a in args)))
-        cs = sorted((r, tuple(nm(a) for a in args)) for r, args in concls)
+        cs = sorted(set((r, tuple(sorted(nm(a) for a in args)) if "==" in r else tuple(nm(a) for a in args)) for r, args in concls))
         cand = (tuple(seq), tuple(cs))
         if best is None or cand < best:
             best = cand
